@@ -275,6 +275,32 @@ func (s *Svc) KeepAndGate(ctx context.Context, slot int, gate int, cb func(ctx c
 	return nil
 }
 
+// KeepTwo stores both closures (a call may carry several) after invoking each once.
+func (s *Svc) KeepTwo(ctx context.Context, slot int, a func(ctx context.Context, i int, str string) (string, error), b func(ctx context.Context, i int, str string) (string, error)) (string, error) {
+	s.log(ctx, "KeepTwo", fmt.Sprint(slot))
+	ra, ea := a(ctx, 1, "a")
+	rb, eb := b(ctx, 2, "b")
+	s.mu.Lock()
+	if s.kept == nil {
+		s.kept = map[int]func(ctx context.Context, i int, str string) (string, error){}
+	}
+	s.kept[slot] = a
+	s.kept[slot+1] = b
+	s.mu.Unlock()
+	return fmt.Sprintf("%s/%v|%s/%v", ra, ea, rb, eb), nil
+}
+
+// GateThenCall waits for the gate and only then invokes the closure it was given.
+func (s *Svc) GateThenCall(ctx context.Context, gate int, cb func(ctx context.Context, i int, str string) (string, error)) (string, error) {
+	s.log(ctx, "GateThenCall", fmt.Sprint(gate))
+	select {
+	case <-s.gate(gate):
+	case <-ctx.Done():
+		return "", ctx.Err()
+	}
+	return cb(ctx, gate, "after-gate")
+}
+
 func (s *Svc) Kept(slot int) func(ctx context.Context, i int, str string) (string, error) {
 	s.mu.Lock()
 	defer s.mu.Unlock()
@@ -377,6 +403,8 @@ type Remote struct {
 	WithClosure func(ctx context.Context, n int, conc bool, cb func(ctx context.Context, i int, str string) (string, error)) ([]string, error)
 	KeepClosure func(ctx context.Context, slot int, cb func(ctx context.Context, i int, str string) (string, error)) error
 	KeepAndGate func(ctx context.Context, slot int, gate int, cb func(ctx context.Context, i int, str string) (string, error)) error
+	KeepTwo      func(ctx context.Context, slot int, a func(ctx context.Context, i int, str string) (string, error), b func(ctx context.Context, i int, str string) (string, error)) (string, error)
+	GateThenCall func(ctx context.Context, gate int, cb func(ctx context.Context, i int, str string) (string, error)) (string, error)
 	Panic       func(ctx context.Context, msg string) error
 	ClosureTypes  func(ctx context.Context, row int, cb func(ctx context.Context, a int, b float64, c bool, d string, e []int, f []string, g uint8, h []float64, i []bool, j int64) (string, error)) (string, error)
 	ClosureResult func(ctx context.Context, want int, cb func(ctx context.Context, k int) ([]int, error)) (string, error)
